@@ -115,8 +115,20 @@ def run_case(desc):
         if not S.reg:
             return {"status": "ok", "counters": {"empty_registry": 1}, "nontrivial": False}
         tr = transitions(zone, rng)
-        style = rng.choice(["dst", "dst", "spread"]) if tr else "spread"
-        if style == "dst":
+        style = rng.choice(["dst", "dst", "spread", "subsecond"]) if tr else rng.choice(["spread", "spread", "subsecond"])
+        sub = False
+        if style == "subsecond":
+            # all instants within four seconds, 1/64 s apart (exactly representable, so the order of the instants is beyond doubt): files on fast
+            # storage, written one after the other. Half of the time right at a transition.
+            sub = True
+            if tr and rng.random() < 0.5:
+                T0, kind = rng.choice(tr)
+                T0 += rng.choice([-2, 0, 3600 - 2, -3600])
+            else:
+                T0 = rng.randint(978307200, 1735689600)
+            kind = "subsecond"
+            pool = [T0 + j / 64 for j in rng.sample(range(0, 256), 40)]
+        elif style == "dst":
             T0, kind = rng.choice(tr)
             pool = [T0 + d for d in rng.sample(range(-5400, 5400, 60), 40)]
         else:
@@ -143,7 +155,7 @@ def run_case(desc):
         fresh_epoch = None
         fresh_rep = None
         if rng.random() < 0.6:
-            fresh_epoch = rng.choice(pool) + rng.choice([0, 0, 1, -1, 1800])
+            fresh_epoch = rng.choice(pool) + (rng.choice([0, 0, 1 / 128, -1 / 128, 0.5]) if sub else rng.choice([0, 0, 1, -1, 1800]))
             fresh_rep = rand_rep(rng, 0.4)
         out_ids = history.choose_out(rng, S)
         exp = S.expect(out_ids, fresh_epoch)
